@@ -117,6 +117,13 @@ CONFIG = {
         'level_text': 'Theorems: a successful producer returns the counter value it found, emits a message carrying that nonce and advances the counter by one; every other transaction (failed attempts, replacements, all other types) leaves the counter alone; along every history the counter equals start + number of successes mod 2^64; replacements re-emit the original nonce. The Go keeper is tied to the model by differential execution of interleaved sends, deposits, replacements and failures from several starting counters (absent, 0, random, 2^64-2).',
         'assumptions': ['the uint64 wrap after 2^64 - start successful sends is the code\'s arithmetic and is written into the model (mod 2^64); it is not treated as a finding'],
     },
+    'C17': {
+        'profiles': [('genesis', 150, 4000)],
+        'rules': [(r'G-END', 'GV', None), (r'G-END', 'GI', None), (r'G-END', 'S', None), (r'EXPORT', 'XR', None), (r'EXPORT', 'X', None)],
+        'monitors': [M.mon_c17],
+        'level_text': 'Theorems: validation accepts only genesis states whose five keyed lists have pairwise distinct store keys; for every validated and initialised genesis the export has the same roles and flags, the documented defaults for absent counters and a permutation of each list; for every state reachable from an initialised genesis, import of its export reproduces the store up to the pending-owner slot (store well-formedness and exportability are proved invariants). The full round-trip statement is refuted for the code as it stands (no genesis field for the pending owner: recorded known finding), with the witness in the property file. Tied to the Go code by differential execution of Validate / InitGenesis / ExportGenesis on generated genesis states with colliding keys in each list, and by evaluating export -> import on the real store (raw key/value comparison) after histories.',
+        'assumptions': ['token-pair keys are Keccak-256 digests: distinct (domain, token) pairs share a key only on a hash collision, which validation (comparing the derived keys) would reject anyway'],
+    },
     'C10': {
         'profiles': [('roles-matrix', 324, 324), ('admin-random', 30, 600)],
         # the property speaks about submitters who do not hold the role: only those steps are compared
